@@ -116,7 +116,7 @@ func startRaw(name string, conf *tls.Config, mk func(p *Peer) func(pc *PeerConn)
 	if err != nil {
 		return nil, err
 	}
-	p := &Peer{L: l, Addr: l.Addr().String(), Name: name, tlsConf: conf, HandshakeTimeout: time.Second}
+	p := &Peer{L: l, Addr: l.Addr().String(), Name: name, tlsConf: conf, HandshakeTimeout: 5 * time.Second}
 	p.rawConn = mk(p)
 	p.wg.Add(1)
 	go p.serve()
